@@ -42,6 +42,42 @@ MCFeeVecs == { ("MOD-fc" :> C1(8)), ("MOD-fc" :> C1(3)) } \cup (IF "stake" \in D
 \* opaque messages: executed for real by the harness (cfevesting / cfesignature), supply neutral
 MCScript == << [m |-> "createpool", amt |-> 10], [m |-> "send", amt |-> 4], [m |-> "split", amt |-> 1], [m |-> "withdraw"], [m |-> "publish"] >>
 
+(* configurations of the trace validation (spec/trace/Trace_Chain.tla): sequences, the recorder logs indices.
+   Longer schedules and deeper distribution chains than the model checker enumerates; amounts are powers of two
+   so that dozens of blocks stay exact at P = 4096. *)
+TrMinterCfgSeq == <<
+  MCfg("uc4e", 0, << Lin(1, 4, 16), Exp(2, NoEnd, 8, 2, Half) >>),
+  MCfg("uc4e", 2, << Exp(1, NoEnd, 16, 2, Half) >>),
+  MCfg("uc4e", 0, << NoM(1, 2), Lin(2, 4, 8), NoM(3, NoEnd) >>),
+  MCfg("uc4e", 1, << Exp(1, 7, 32, 2, Half), Lin(2, 15, 24), NoM(3, 18), Exp(4, NoEnd, 8, 4, P) >>),
+  MCfg("uc4e", 0, << Lin(1, 3, 12), Lin(2, 7, 4), Exp(3, NoEnd, 64, 4, Quarter) >>),
+  MCfg("uc4e", 3, << Lin(1, 9, 6), Exp(2, 20, 40, 4, Half + Quarter), NoM(3, NoEnd) >>),
+  MCfg("uc4e", 0, << Exp(1, NoEnd, 64, 1, Half) >>) >>
+TrMinterUpdSeq == <<
+  MCfg("uc4e", 0, << Lin(1, 2, 4), Exp(2, NoEnd, 8, 2, P) >>),
+  MCfg("uc4e", 0, << NoM(1, NoEnd) >>),
+  MCfg("uc4e", 0, << Lin(1, NoEnd, 4) >>),
+  MCfg("uc4e", 0, << Lin(1, 4, 16), NoM(2, 6), Lin(3, 40, 68), NoM(4, NoEnd) >>),
+  MCfg("uc4e", 0, << NoM(2, 30), Exp(3, NoEnd, 16, 2, Half) >>),
+  MCfg("stake", 0, << Exp(1, NoEnd, 32, 4, Half) >>) >>
+TrDistCfgSeq == <<
+  << SD("a", <<Main>>, Mod("m1"), <<>>, 0) >>,
+  << SD("a", <<Main, Mod("fc")>>, Mod("m1"), << Share("s1", Quarter, Base("b1")) >>, Quarter) >>,
+  << SD("a", <<Mod("fc")>>, Main, << Share("s1", Quarter, Mod("m2")) >>, 0), SD("b", <<Main>>, IntA("i1"), <<>>, Quarter),
+     SD("c", <<IntA("i1")>>, Mod("m1"), << Share("s2", Half, Base("b1")) >>, 0) >>,
+  << SD("a", <<Main>>, IntA("i1"), << Share("s1", Half, Mod("m1")) >>, 0),
+     SD("b", <<IntA("i1"), Mod("fc")>>, Mod("m2"), << Share("s2", Quarter, Base("b1")) >>, Quarter) >>,
+  << SD("a", <<Mod("fc")>>, Mod("m2"), << Share("s1", Half, Main), Share("s3", Quarter, Base("b1")) >>, 0),
+     SD("b", <<Main>>, Mod("m1"), << Share("s2", Quarter + (Quarter \div 2), IntA("i1")) >>, Quarter \div 2),
+     SD("c", <<IntA("i1"), Mod("m2")>>, Base("b1"), <<>>, Half) >>,
+  << SD("a", <<Main, Mod("fc"), Mod("m2")>>, Base("b1"), << Share("s1", P \div 8, Mod("m1")) >>, P - Quarter) >> >>
+TrDistUpdSeq == <<
+  << SD("z", <<Main>>, Mod("m2"), << Share("s9", Half, Mod("m1")) >>, Quarter) >>,
+  << SD("z", <<Mod("fc")>>, Mod("m2"), <<>>, 0) >>,
+  << SD("y", <<Mod("fc"), Mod("m1")>>, Main, <<>>, 0), SD("z", <<Main>>, Base("b1"), << Share("s9", Half, Mod("m2")) >>, 0) >>,
+  << SD("z", <<Main>>, Mod("m2"), << Share("s9", Half, Mod("m1")), Share("s9", Quarter, Base("b1")) >>, 0) >> >>
+ASSUME PrintT(ToJson([trcfgs |-> [minter |-> TrMinterCfgSeq, mupd |-> TrMinterUpdSeq, dist |-> TrDistCfgSeq, dupd |-> TrDistUpdSeq]]))
+
 ASSUME PrintT(ToJson([meta |-> [P |-> P, YearTicks |-> YearTicks, Supply0 |-> Supply0, Tmax |-> Tmax, Denoms |-> Denoms]]))
 SID(v) == <<TLCFP(v), TLCFP(<<v, 7>>)>>
 NZ(f) == [k \in { x \in DOMAIN f : \E d \in Denoms : f[x][d] # 0 } |-> f[k]]
